@@ -296,7 +296,9 @@ impl<'a> SchemaConstructionState<'a> {
 					match logical_type {
 						"decimal" => LogicalType::Decimal(Decimal {
 							precision: field!(precision),
-							scale: field!(scale),
+							// "scale, a JSON integer [...] (optional). If not specified the
+							// scale is 0."
+							scale: object.scale.unwrap_or(0),
 						}),
 						"uuid" => LogicalType::Uuid,
 						"date" => LogicalType::Date,
